@@ -738,7 +738,7 @@ func (st *state) applyDefaults(instancep reflect.Value, schema *Schema) (err err
 					if err := st.applyDefaults(lvalue, subschema); err != nil {
 						return err
 					}
-					instance.SetMapIndex(reflect.ValueOf(prop), lvalue.Elem())
+					instance.SetMapIndex(reflect.ValueOf(prop).Convert(instance.Type().Key()), lvalue.Elem())
 				} else if val.IsValid() {
 					// Recurse into an existing sub-instance.
 					// MapIndex returns a non-addressable value; copy into an addressable lvalue, recurse, then set back.
@@ -748,7 +748,7 @@ func (st *state) applyDefaults(instancep reflect.Value, schema *Schema) (err err
 					if err := st.applyDefaults(lvalue, subschema); err != nil {
 						return err
 					}
-					instance.SetMapIndex(reflect.ValueOf(prop), lvalue.Elem())
+					instance.SetMapIndex(reflect.ValueOf(prop).Convert(instance.Type().Key()), lvalue.Elem())
 				} else if schemaHasDefaultsInProperties(subschema) {
 					// Property is missing, but descendants still have some defaults
 					// Create an empty container and recurse to populate
@@ -768,7 +768,7 @@ func (st *state) applyDefaults(instancep reflect.Value, schema *Schema) (err err
 						if err := st.applyDefaults(lvalue, subschema); err != nil {
 							return err
 						}
-						instance.SetMapIndex(reflect.ValueOf(prop), lvalue.Elem())
+						instance.SetMapIndex(reflect.ValueOf(prop).Convert(instance.Type().Key()), lvalue.Elem())
 					}
 				}
 			case reflect.Struct:
@@ -810,7 +810,9 @@ func schemaHasDefaultsInProperties(s *Schema) bool {
 func property(v reflect.Value, name string) reflect.Value {
 	switch v.Kind() {
 	case reflect.Map:
-		return v.MapIndex(reflect.ValueOf(name))
+		// The key type may be a named string type, to which a plain string
+		// is not assignable.
+		return v.MapIndex(reflect.ValueOf(name).Convert(v.Type().Key()))
 	case reflect.Struct:
 		props := structPropertiesOf(v.Type())
 		// Ignore nonexistent properties.
